@@ -314,7 +314,7 @@ def per_run_values(scn: dict, tree) -> tuple[list[Optional[dict]], list[str]]:
     out, problems = [], []
     for r, (combo, ix) in enumerate(zip(combos, idx)):
         try:
-            sel = select.positions(ds, names, combo, ix, r)
+            sel = select.positions(ds, names, combo, ix, r, start_time=scn["readout"].get("start_time", 0.0))
             out.append(select.run_slice(ds, sel))
         except select.LabelError as exc:
             out.append(None)
